@@ -4858,7 +4858,9 @@ class ParseCtx:
                 DTAG.SOURCE_LINE, lark_node_for_error.meta.line,
                 DTAG.SOURCE_COLUMN, lark_node_for_error.meta.column
         )
-        node = ProgramData.imbue(self._parse_stmt_seq(macro.parse_tree), DTAG.PARENT, macro)
+        node = self._parse_stmt_seq(macro.parse_tree)
+        if node is not None:
+            node = ProgramData.imbue(node, DTAG.PARENT, macro)
         del self.bound_argument_stack[-1]
         self.active_macro = self.active_macro.parent
         return node
@@ -5042,6 +5044,9 @@ class ParseCtx:
         next_node = None
         for stmt in reversed(stmts):
             node = self._parse_stmt(stmt)
+            if node is None:
+                # a call of a macro whose body is empty
+                continue
             if self.active_macro and ProgramData.lookup(node, DTAG.MACRO_INSTANCE, recurse_upwards=False, recurse_downwards=False) is None:
                 node = ProgramData.imbue(node, DTAG.MACRO_INSTANCE, self.active_macro)
             if node.get_next() is not None:
